@@ -4,10 +4,11 @@
    Transfer-Encoding, Trailer, Content-Encoding, Content-Type and of the tokens chunked, gzip,
    deflate, text, charset), and -- C18_*_bytes below -- over the message bytes: any change of
    ASCII letter case inside the header block leaves verdict, boundary, start-line fields, body
-   and trailing data unchanged and the stored header lists equal up to letter case. *)
+   and trailing data unchanged and the stored header lists equal up to letter case (for chunked
+   responses also when the letter case of the trailer section changes). *)
 From Coq Require Import String.
-From Http Require Import Model.Bytes Model.Num Model.Headers Model.Request Model.Response
-     Model.Chunked Model.Coding Spec.ChunkedGrammar Proofs.CaseLemmas Proofs.CaseBytes Proofs.CaseEndToEnd.
+From Http Require Import Model.Bytes Model.Utf8 Model.Num Model.Headers Model.Request Model.Response
+     Model.Chunked Model.Coding Spec.ChunkedGrammar Proofs.CaseLemmas Proofs.CaseBytes Proofs.CaseEndToEnd Proofs.CaseTrailer.
 
 (* every lookup the crate performs is blind to letter case *)
 Theorem C18_lookups_ignore_case :
@@ -114,6 +115,28 @@ Theorem C18_dechunk_rewrite_ignores_case :
     hdrs_ci hs hs' -> hdrs_ci (dechunk_headers hs tr body) (dechunk_headers hs' tr body).
 Proof. exact dechunk_headers_ci. Qed.
 Print Assumptions C18_dechunk_rewrite_ignores_case.
+
+(* chunked responses: letter case changed in the header block AND in the trailer section (field
+   names such as Content-Length / Transfer-Encoding / Trailer that the rewrite filters, and any
+   other field).  [chunked_variant wire wire']: wire is a well-formed chunked body and wire' the
+   same bytes except for the letter case of the trailer section. *)
+Check (CV_last : forall line block block' fields,
+          size_line line 0 -> is_trailer block fields -> ci_eq block block' ->
+          chunked_variant (line ++ CRLF ++ block) (line ++ CRLF ++ block')).
+Theorem C18_chunked_response_bytes :
+  forall (l block block' wire wire' rest : bytes) (hs : list header) code reason,
+    is_line l -> utf8_valid l = true -> parse_status_line l = inl (code, reason) ->
+    ci_eq block block' -> hdr_parse None [] block = HComplete hs (length block) ->
+    header_value hs CONTENT_LENGTH = None -> has_header_token hs TRANSFER_ENCODING CHUNKED = true ->
+    chunked_variant wire wire' ->
+    exists st st' c,
+      resp_parse resp_init (l ++ CRLF ++ block ++ wire ++ rest) = (st, Complete c) /\
+      resp_parse resp_init (l ++ CRLF ++ block' ++ wire' ++ rest) = (st', Complete c) /\
+      c = length (l ++ CRLF ++ block ++ wire) /\
+      s_code st = s_code st' /\ s_reason st = s_reason st' /\ s_body st = s_body st' /\
+      s_trailer st = s_trailer st' /\ hdrs_ci (s_headers st) (s_headers st').
+Proof. exact chunked_response_case_insensitive. Qed.
+Print Assumptions C18_chunked_response_bytes.
 
 Example C18_bytes_example :
   let l := str "HTTP/1.1 200 OK"%string in
